@@ -392,6 +392,11 @@ def run(ctx, rep):
     rep.extra["link_scenarios"] = len(items) // 4
     rep.extra["host_traces"] = len(hitems)
     rep.extra["iso_links"] = len(iitems)
+    # the repository's own tests, traced at the HCI boundary, against the C05 clauses of specs/Stack/HciMonitor.tla
+    # (fragment size within the advertised data length, start / continuation markers against the announced L2CAP length)
+    from lib import repotests
+
+    repotests.report(ctx, rep, "C05_")
     rep.exhaustive = False
     if not ctx.quick:
         selftest(ctx, rep)  # DESIGN 3.6: the binding self-test is part of the thorough tier
